@@ -3,35 +3,47 @@
 Proof: props/Properties_C04.v (models PV.Lattice -- whose term factories are regenerated from
 src/pomerol/LatticePresets.cpp on every run --, PV.IndexHam, specification PV.PresetsSpec).
 
+The configuration is READ FROM THE TREE on every run (translator/gen_c04.py -> coq/gen/Gen_IndexHamiltonian.v,
+Gen_MagnetizationCode.v, Gen_LatticeDocs.v):
+    prepare_first_by_index   first-factor test of IndexHamiltonian::prepare: `i==0` (true) or `tmp.isEmpty()` (false)
+    code_magnetization_half  LatticePresets::addMagnetization passes Magnetization/2. (true) or Magnetization (false) to Level
+    doc_magnetization_half   the doxygen formula in front of addMagnetization carries \\frac{1}{2} (true) or not (false)
+The theorems are stated about that configuration and the specification of addMagnetization takes its factor from the
+header; they type-check iff prepare_first_by_index = true and code_magnetization_half = doc_magnetization_half
+(PV.PresetsAgreement), so a change of the code or of the documentation that breaks the agreement breaks the proof
+obligations, and the differential runs below then find the failing input.
+
 Tie and decision, on every run.  Scenarios (site layout + preset calls + raw terms) are run through the real library by
 harness h_ed with symmetries ignored (`model hprep`, many scenarios per process): the dump gives the real index map
 (INFO), the real IndexHamiltonian polynomial (HPOLY) and the full 2^N x 2^N Fock matrix assembled by HamiltonianPart
 (HBLK).  Doubles are converted exactly (hex floats of dyadic rationals).  The extracted driver (ocaml/driver_c04.ml
 around PV.PresetsExec) evaluates, over exact rationals (complex build: Gaussian rationals):
-  (a) MODEL vs HPOLY: Lattice.v's state machine -> IndexHam.prepare with the index map of the dump, in four variants
-      = two repair flags: `fixed` (IndexHamiltonian::prepare decides "first factor" by the loop index) and `mag_half`
-      (addMagnetization with Magnetization/2., executed as the as-is model on the halved parameter); monomials,
-      coefficients and map ORDER are compared exactly.  This DECIDES which variant the library is; never assumed.
+  (a) MODEL vs HPOLY: Lattice.v's state machine -> IndexHam.prepare with the index map of the dump; monomials,
+      coefficients and map ORDER are compared exactly.  The model variant that must reproduce the library is the one the
+      source text selects (fixed = prepare_first_by_index, mag_half = code_magnetization_half); all four variants are
+      evaluated so that a disagreement can be diagnosed.
   (b) documented-operator: the implementation's matrix = sum over the calls of the documented operator (PresetsSpec, the
-      executable x-forms; raw term = value * Jordan-Wigner product of its operators);
+      executable x-forms; addMagnetization with the factor the header states; raw term = value * Jordan-Wigner product);
   (c) hermitian: H[r][c] = conj H[c][r], claimed for scenarios built from presets (real parameters where the
       documentation needs them real) and raw terms that come with their Hermitian conjugate;
   (d) su2-commutator: [H, S^+_tot] = [H, S^-_tot] = 0 for two-spin lattices built from addCoulombP (U' = U - 2J),
       addCoulombS, addLevel, addSS, addHopping4/6.  addCoulombP with another U' and the negative controls (addSzSz,
       addMagnetization, single-spin hopping) are computed and counted, nothing is demanded of them.
 A VIOLATION is raised only when (b), (c) or (d) fails on the implementation -- never by a mere model/code difference.
-  * A failure is EXPLAINED BY A MODELLED DEFECT when the library's polynomial is that of a model variant with a repair
-    flag off and the fully repaired model satisfies clause (b) on that scenario; the defects involved are the flags
-    whose repair changes the polynomial there.  Each modelled defect is reported once, under the key of its corpus
-    witness (DEFECTS below), with the number of failing scenarios it explains.
+  * A failure is EXPLAINED BY A MODELLED DEFECT when the library's polynomial is that of a model variant V, some other
+    variant G satisfies clause (b) on that scenario (its matrix is the documented operator) and V does not; the defects
+    involved are the flags in which V and the nearest such G differ: `prepare` (first-factor test) and `magnetization`
+    (code and documentation of addMagnetization are of different variants -- whichever of the two was changed).  Each is
+    reported once, under the key of its corpus witness (DEFECTS below), with the number of failing scenarios it explains.
   * Everything else is shrunk (drop calls, drop sites, reduce orbitals/spins, spin-major -> default order, amplitudes ->
     1 / -1 / 0.5 / 0, smaller indices) while the same clause keeps failing, labels are renamed A, B, C, and the minimal
     scenario is the key.
-If the library's polynomial differs from every model variant on a scenario where (b)-(d) hold, the model is wrong:
-chk.tie_broken.
+If the library's polynomial differs from the model variant the source text selects on a scenario where (b)-(d) hold, the
+model (or the translator) is wrong: chk.tie_broken.
 """
 import json
 import os
+import re
 from concurrent.futures import ThreadPoolExecutor
 from fractions import Fraction
 
@@ -54,19 +66,48 @@ F = Fraction
 DYADIC = [F(0), F(1), F(-1), F(1, 2), F(-1, 2), F(1, 4), F(2), F(-3, 4), F(3, 2)]
 NONZERO = [x for x in DYADIC if x != 0]
 
-# the modelled defects: repair flag -> (corpus witness, where, what the witness shows, Coq theorem)
+# the modelled defects: flag -> (corpus witness, where, what the witness shows)
 DEFECTS = {
     "prepare": (["site A 3 1", "term 4 1 1 A 0 0 1 A 0 0 0 A 1 0 0 A 2 0"],
-                "IndexHamiltonian::prepare (src/pomerol/IndexHamiltonian.cpp:26 `if (tmp.isEmpty()) tmp=t1; else tmp*=t1;`): a running product "
+                "IndexHamiltonian::prepare (src/pomerol/IndexHamiltonian.cpp, `if (tmp.isEmpty()) tmp=t1; else tmp*=t1;`): a running product "
                 "that has vanished (repeated operator) is mistaken for `no factor yet`, so the remaining factors alone are added",
-                "the term contains c^+_0 twice, so it is the zero operator, but the library adds c_1 c_2",
-                "model flag fixed=false reproduces the library's polynomial; fixed=true (first factor decided by the loop index) satisfies the clause"),
+                "the term contains c^+_0 twice, so it is the zero operator, but the library adds c_1 c_2"),
     "magnetization": (["site A 1 2", "addMagnetization A 1"],
-                      "LatticePresets::addMagnetization (src/pomerol/LatticePresets.cpp:210-211) adds mH (n_up - n_down); its documentation "
-                      "(include/pomerol/LatticePresets.h:121) says mH 1/2 (n_up - n_down)",
-                      "every matrix element is twice the documented one",
-                      "model flag mag_half=false (the code as it stands) reproduces the library's polynomial; mag_half=true (Magnetization/2.) satisfies the clause"),
+                      "LatticePresets::addMagnetization (src/pomerol/LatticePresets.cpp) and its documentation (doxygen comment in "
+                      "include/pomerol/LatticePresets.h) are of different variants",
+                      "the matrix elements differ from the documented ones by a factor 2"),
 }
+FLAG_INDEX = {"prepare": 0, "magnetization": 1}
+
+GEN_FILES = {"prepare_first_by_index": "Gen_IndexHamiltonian", "code_magnetization_half": "Gen_MagnetizationCode",
+             "doc_magnetization_half": "Gen_LatticeDocs"}
+
+
+def generated_config():
+    """the three booleans the translator wrote into coq/gen (of the tree the check runs against)"""
+    cfg = {}
+    for name, f in GEN_FILES.items():
+        try:
+            txt = open(os.path.join(pv.COQ, "gen", f + ".v")).read()
+        except OSError:
+            cfg[name] = None
+            continue
+        m = re.search(r'Definition\s+%s\s*:\s*bool\s*:=\s*(true|false)\s*\.' % name, txt)
+        cfg[name] = (m.group(1) == "true") if m else None
+    return cfg
+
+
+def defect_text(flag, lib_variant, cfg):
+    lines, where, shows = DEFECTS[flag]
+    if flag == "prepare":
+        return ("%s -- witness `%s`: %s. The library's polynomial is that of the model with the first-factor test `tmp.isEmpty()` "
+                "(fixed=0); the model with the test `i==0` (fixed=1) satisfies the clause; the source text translates to "
+                "prepare_first_by_index=%s" % (where, " | ".join(lines), shows, cfg.get("prepare_first_by_index")))
+    half = {0: "mH (n_up - n_down)", 1: "mH 1/2 (n_up - n_down)"}
+    return ("%s -- witness `%s`: the library adds %s (its polynomial is that of model variant mag_half=%d; the source text translates "
+            "to code_magnetization_half=%s), the documentation states %s (doc_magnetization_half=%s); %s"
+            % (where, " | ".join(lines), half[lib_variant[1]], lib_variant[1], cfg.get("code_magnetization_half"),
+               half[1 if cfg.get("doc_magnetization_half") else 0], cfg.get("doc_magnetization_half"), shows))
 
 
 def witness_key(flag):
@@ -458,7 +499,8 @@ class Verdict:
         self.model_ok = None       # every call succeeds in the model
         self.driver_error = None
         self.commutes = None
-        self.repaired_model_ok = None   # the fully repaired model satisfies clause (b) here (asked only when the implementation does not)
+        self.modelspec = None      # {(fixed, mag_half): that model variant's matrix is the documented operator} (asked only when clause (b) fails)
+        self.config = None         # (fixed, mag_half, doc_half) as compiled into the driver (extracted PresetsConfig)
         if impl.matrix is None:
             self.fails.append("x")
             self.detail["x"] = impl.crash or impl.error
@@ -469,8 +511,10 @@ class Verdict:
         self.model_ok = all(x == "ok" for x in rec["RES"])
         self.polys = dict((v, poly_of_tokens(rec["POLY%d%d" % v])) for v in VARIANTS)
         self.match = dict((v, self.polys[v] is not None and self.polys[v] == impl.hpoly) for v in VARIANTS)
-        if "MODELSPEC" in rec:
-            self.repaired_model_ok = rec["MODELSPEC"] == ["0"]
+        if "CONFIG" in rec and len(rec["CONFIG"]) == 3:
+            self.config = tuple(int(x) for x in rec["CONFIG"])
+        if "MODELSPEC" in rec and len(rec["MODELSPEC"]) == len(VARIANTS):
+            self.modelspec = dict((v, x == "0") for v, x in zip(VARIANTS, rec["MODELSPEC"]))
         if int(rec["SPEC"][0]) != 0:
             self.fails.append("b")
             e = rec["SPEC"][1:]
@@ -498,22 +542,31 @@ class Verdict:
     def lib_variants(self):
         return [v for v in VARIANTS if self.match and self.match[v]]
 
-    def explained_by(self):
-        """the modelled defects (repair flags) that explain the failed clauses (b)/(c) of this scenario, or None.
-        Explained = the library's polynomial is that of a model variant with some repair off, and the fully repaired model satisfies
-        the clause on this scenario; the defects involved are the flags whose repair changes that variant's polynomial here."""
-        if not self.fails or "x" in self.fails or "d" in self.fails or not self.repaired_model_ok:
+    def explanation(self):
+        """(flags, library variant V, satisfying variant G) when the failed clause (b) of this scenario is explained by modelled
+        defects, else None.  Explained = the library's polynomial is that of a model variant V whose matrix is not the documented
+        operator while some variant G's is; the defects involved are the flags in which V and the nearest such G differ."""
+        if "b" not in self.fails or "x" in self.fails or "d" in self.fails or not self.modelspec:
             return None
         lv = self.lib_variants()
-        if not lv or (1, 1) in lv:
+        good = [g for g in VARIANTS if self.modelspec.get(g)]
+        if not lv or not good or any(v in good for v in lv):
             return None
-        v = lv[0]
-        flags = []
-        if not v[0] and self.polys[v] != self.polys[(1, v[1])]:
-            flags.append("prepare")
-        if not v[1] and self.polys[v] != self.polys[(v[0], 1)]:
-            flags.append("magnetization")
-        return flags or None
+        best = None
+        if self.config:      # among equal candidates prefer the variant the source text selects
+            lv = sorted(lv, key=lambda v: v != self.config[:2])
+        for v in lv:
+            for g in good:
+                d = sum(1 for a, b in zip(v, g) if a != b)
+                if best is None or d < best[0]:
+                    best = (d, v, g)
+        _, v, g = best
+        flags = [f for f, i in sorted(FLAG_INDEX.items(), key=lambda kv: kv[1]) if v[i] != g[i]]
+        return (flags, v, g) if flags else None
+
+    def explained_by(self):
+        e = self.explanation()
+        return e[0] if e else None
 
 
 def judge(tools, scens):
@@ -949,19 +1002,20 @@ def match_json(v):
     return dict(("fixed=%d,mag_half=%d" % k, b) for k, b in (v.match or {}).items())
 
 
-def report(chk, tools, verdicts):
+def report(chk, tools, verdicts, cfg):
     """violations for the failed clauses: modelled defects -> key of their corpus witness; everything else is shrunk and keyed by
     the minimal scenario"""
-    explained = dict((f, {"count": 0, "by_clause": {}, "examples": []}) for f in DEFECTS)
+    explained = dict((f, {"count": 0, "by_clause": {}, "examples": [], "library_variant": None}) for f in DEFECTS)
     todo = {}      # clause -> failing verdicts (corpus scenarios come first in the list)
     for v in verdicts:
         if not v.fails:
             continue
-        flags = v.explained_by()
-        if flags:
-            for f in flags:
+        ex = v.explanation()
+        if ex:
+            for f in ex[0]:
                 e = explained[f]
                 e["count"] += 1
+                e["library_variant"] = e["library_variant"] or ex[1]
                 for c in v.fails:
                     e["by_clause"][CLAUSES[c]] = e["by_clause"].get(CLAUSES[c], 0) + 1
                 if len(e["examples"]) < 4 and not v.scen.tag.startswith("corpus:witness"):
@@ -973,17 +1027,20 @@ def report(chk, tools, verdicts):
         e = explained[f]
         if not e["count"]:
             continue
-        lines, where, shows, flagtext = DEFECTS[f]
+        lines = DEFECTS[f][0]
         wit = [v for v in verdicts if v.scen.tag == "corpus:witness-" + f and v.scen.variant == "real"]
-        rep = {"harness": "h_ed", "clause": CLAUSES["b"], "explained_by_missing_repair": f, "failures_explained_in_this_run": e,
+        rep = {"harness": "h_ed", "clause": CLAUSES["b"], "explained_by_modelled_defect": f,
+               "failures_explained_in_this_run": dict(e, library_variant="fixed=%d,mag_half=%d" % e["library_variant"]),
+               "generated_configuration": cfg,
                "lines": lines, "order_spins": 0, "variant": "real", "hermitian_input": f == "magnetization", "su2": None}
         if wit:
             rep.update(wit[0].scen.to_json())
             rep["detail"] = wit[0].detail
             rep["implementation_HPOLY"] = hpoly_json(wit[0])
             rep["HPOLY_matches_model"] = match_json(wit[0])
-        chk.violation(witness_key(f), "%s -- witness `%s`: %s (clause %s). %s; %d failing scenario(s) of this run are explained by it (clauses: %s)."
-                      % (where, " | ".join(lines), shows, CLAUSES["b"], flagtext, e["count"], e["by_clause"]), rep)
+            rep["model_variant_satisfies_clause_b"] = modelspec_json(wit[0])
+        chk.violation(witness_key(f), "%s (clause %s); %d failing scenario(s) of this run are explained by it (clauses: %s)."
+                      % (defect_text(f, e["library_variant"], cfg), CLAUSES["b"], e["count"], e["by_clause"]), rep)
     done_keys = set()
     for c in ("x", "b", "c", "d"):
         pending = list(todo.get(c, []))
@@ -993,11 +1050,11 @@ def report(chk, tools, verdicts):
             budget -= 1
             small = shrink(tools, v.scen, c)
             sv = judge(tools, [small])[0]
-            flags = sv.explained_by() if c in sv.fails else None
-            if flags:
+            ex = sv.explanation() if c in sv.fails else None
+            if ex:
                 # the minimal form is a modelled defect after all (the original scenario mixed it with something the shrinker removed)
-                key = witness_key(flags[0])
-                what = "%s -- found in `%s`, shrunk to `%s`" % (DEFECTS[flags[0]][1], v.scen.text(), small.text())
+                key = witness_key(ex[0][0])
+                what = "%s -- found in `%s`, shrunk to `%s`" % (defect_text(ex[0][0], ex[1], cfg), v.scen.text(), small.text())
             else:
                 key = "%s: %s" % (CLAUSES[c], small.text())
                 what = "clause %s fails on the implementation for `%s`%s: %s" % (
@@ -1005,7 +1062,7 @@ def report(chk, tools, verdicts):
                     json.dumps(sv.detail.get(c), default=str)[:600])
             rep = {"harness": "h_ed", "clause": CLAUSES[c], "found_in": v.scen.text(), "found_in_tag": v.scen.tag, "detail": sv.detail,
                    "HPOLY_matches_model": match_json(sv), "implementation_HPOLY": hpoly_json(sv),
-                   "repaired_model_satisfies_clause_b": sv.repaired_model_ok}
+                   "model_variant_satisfies_clause_b": modelspec_json(sv), "generated_configuration": cfg}
             rep.update(small.to_json())
             if key not in done_keys:
                 done_keys.add(key)
@@ -1014,6 +1071,41 @@ def report(chk, tools, verdicts):
             heads = set(l.split()[0] for l in small.lines() if not l.startswith("site"))
             pending = [p for p in pending if not heads <= set(l.split()[0] for l in p.scen.lines())]
     return explained
+
+
+def modelspec_json(v):
+    return dict(("fixed=%d,mag_half=%d" % k, b) for k, b in (v.modelspec or {}).items())
+
+
+def configuration(chk, ok, log):
+    """the three generated booleans, the status of their translator fragments, and what a failed build says about them"""
+    cfg = generated_config()
+    status = dict((f, (chk.extra.get("translator") or {}).get(f)) for f in GEN_FILES.values())
+    chk.extra["generated_configuration"] = dict(cfg, translator_status=status)
+    for name, f in GEN_FILES.items():
+        st = status.get(f)
+        if cfg[name] is None:
+            chk.tie_broken("generated configuration", "coq/gen/%s.v does not define %s (translator status: %s)" % (f, name, st))
+        elif st is not None and str(st).startswith("untranslatable"):
+            if name == "doc_magnetization_half":
+                # what is documented cannot be established: the specification of clause (b) would rest on the snapshot
+                chk.tie_broken("documentation of addMagnetization", "the doxygen comment in front of LatticePresets::addMagnetization has none of the "
+                               "recognised shapes (%s); the committed snapshot (doc_magnetization_half=%s) is used" % (st, cfg[name]))
+            else:
+                chk.notes.append("%s: %s -- the committed snapshot (%s=%s) is used; clause (a) decides whether it still describes the code" % (f, st, name, cfg[name]))
+    if not ok:
+        failed = pv.coq_failed_files(log)
+        chk.extra["coq_files_failing"] = ["%s:%s" % fl for fl in failed]
+        if any(f.endswith("PresetsAgreement.v") for f, _ in failed):
+            which = []
+            src = open(os.path.join(pv.COQ, "theories", "PresetsAgreement.v")).read().split("\n")
+            for f, ln in failed:
+                if f.endswith("PresetsAgreement.v"):
+                    above = [l for l in src[:int(ln)] if l.startswith("Lemma ")]
+                    which.append(above[-1].split()[1] if above else "?")
+            chk.extra["agreement_lemma_failing"] = which
+    chk.extra["notes"] = chk.notes
+    return cfg
 
 
 def run(chk):
@@ -1025,6 +1117,7 @@ def run(chk):
             raise pv.BuildError("extraction root does not compile", log)
     else:
         ok, log = chk.prove(["extract/Extract_C04.vo"])
+    cfg = configuration(chk, ok, log)
     chk.trusted += ["harness/h_ed.cpp + harness/ed_common.h (scenario interpreter; dump of IndexClassification, IndexHamiltonian and of the matrix "
                     "HamiltonianPart::prepare assembles, before diagonalisation, symmetries ignored)",
                     "exact conversion of hex floats (%a) to rationals; all amplitudes are dyadic rationals with small exponents, so the "
@@ -1036,7 +1129,11 @@ def run(chk):
                     "extracted equality test, printing) and this module (reordering of the block to natural Fock order, HPOLY comparison, "
                     "generation, shrinking)",
                     "translator/gen_c20.py for the factory arrays of PVgen.Gen_LatticePresets (model side of clause (a) only: clauses (b)-(d) "
-                    "judge the implementation against PresetsSpec and do not use the model)"]
+                    "judge the implementation against PresetsSpec and do not use the model)",
+                    "translator/gen_c04.py: pattern recognition of the doxygen formula of addMagnetization (two accepted shapes; it selects the "
+                    "factor of PresetsSpec.spec_magnetization, i.e. of clause (b)), of the two Level calls of addMagnetization and of the first-factor "
+                    "test of IndexHamiltonian::prepare (these two select the model variant of clause (a) and of the theorems; a misread code shape "
+                    "shows as a model/HPOLY difference)"]
     chk.assume += ["Fock space of at most 6 modes (the full 4^N matrix is compared)",
                    "every generated call is one the preset is defined for (known labels, matching shapes, indices in range) and every raw term "
                    "is valid; invalid input is C20's subject",
@@ -1068,20 +1165,29 @@ def run(chk):
                 scens.append(Gen(r2, v).scenario())
     verdicts = judge(tools, scens)
 
-    # ---- (a) which variant is the library?
+    # ---- (a) is the library the model variant its source text selects?
     judged = [v for v in verdicts if v.match is not None]
     counts = dict((k, sum(1 for v in judged if v.match[k])) for k in VARIANTS)
     nnone = [v for v in judged if not any(v.match.values())]
     exact = [k for k in VARIANTS if judged and counts[k] == len(judged)]
     discr = {"fixed": sum(1 for v in judged if v.polys[(0, 0)] != v.polys[(1, 0)] or v.polys[(0, 1)] != v.polys[(1, 1)]),
              "mag_half": sum(1 for v in judged if v.polys[(0, 0)] != v.polys[(0, 1)] or v.polys[(1, 0)] != v.polys[(1, 1)])}
+    cfgv = None
+    if cfg["prepare_first_by_index"] is not None and cfg["code_magnetization_half"] is not None:
+        cfgv = (int(cfg["prepare_first_by_index"]), int(cfg["code_magnetization_half"]))
     chk.extra["scenarios"] = len(scens)
     chk.extra["HPOLY_equals_model_variant"] = dict(("fixed=%d,mag_half=%d" % k, n) for k, n in counts.items())
     chk.extra["HPOLY_equals_no_variant"] = len(nnone)
     chk.extra["scenarios_discriminating_the_flag"] = discr
     chk.extra["implementation_is_variant"] = ["fixed=%d,mag_half=%d" % k for k in exact] or "none"
+    chk.extra["variant_selected_by_the_source_text"] = "fixed=%d,mag_half=%d" % cfgv if cfgv else "unknown"
+    chk.extra["HPOLY_equals_selected_variant"] = counts.get(cfgv) if cfgv else None
     chk.extra["modes_histogram"] = dict(sorted((str(k), sum(1 for s in scens if s.modes() == k)) for k in range(1, 7)))
     chk.extra["translator_fragment"] = (chk.extra.get("translator") or {}).get("Gen_LatticePresets")
+    for v in judged:
+        if v.config is not None and cfgv is not None and v.config != cfgv + (int(bool(cfg["doc_magnetization_half"])),):
+            chk.tie_broken("driver configuration", "the extracted driver was built with configuration %s but coq/gen holds %s" % (v.config, cfg))
+            break
     for v in verdicts:
         if v.driver_error:
             chk.tie_broken("driver", "driver_c04 could not evaluate `%s`: %s" % (v.scen.text(), v.driver_error))
@@ -1127,12 +1233,13 @@ def run(chk):
                                        "su2-commutator (negative controls)": sum(1 for v in judged if v.scen.su2_class() == "control")}
 
     # ---- violations
-    explained = report(chk, tools, verdicts)
+    explained = report(chk, tools, verdicts, cfg)
     chk.extra["failing_scenarios"] = {"total": sum(1 for v in verdicts if v.fails),
                                       "explained_by_modelled_defect": dict((f, e["count"]) for f, e in explained.items()),
                                       "by_clause": dict((CLAUSES[c], sum(1 for v in verdicts if c in v.fails)) for c in CLAUSES)}
 
-    # ---- the library agrees with neither model variant although the property holds there: the model is wrong
+    # ---- the library's polynomial is not the one of the selected model variant although the property holds there: the model
+    #      (or the translator that selected the variant) is wrong
     for v in nnone:
         if not v.fails:
             small = v.scen
@@ -1142,6 +1249,26 @@ def run(chk):
             break
     if judged and not nnone and not exact:
         chk.tie_broken("model vs HPOLY", "no single model variant reproduces the library's polynomial on every scenario: %s" % chk.extra["HPOLY_equals_model_variant"])
+    if cfgv is not None:
+        for v in judged:
+            if not v.match[cfgv] and not v.fails and any(v.match.values()):
+                chk.tie_broken("selected variant vs HPOLY", "the source text selects the model variant fixed=%d,mag_half=%d (translator/gen_c04.py) but "
+                               "the library's polynomial on `%s` is that of %s, and clauses (b)-(d) hold there: the translator misreads the code"
+                               % (cfgv + (v.scen.text(), [k for k, b in match_json(v).items() if b])))
+                break
+    # ---- agreement of code and documentation: by the translated text, by the proof, by the differential runs
+    nmag = sum(1 for v in judged if any(it[0] == "preset" and it[1] == "addMagnetization" and it[2][1] != (0, 0) for it in v.scen.items))
+    nrep = discr["fixed"]
+    chk.extra["code_documentation_agreement"] = {
+        "by_translated_text": {"prepare_first_by_index = true": cfg["prepare_first_by_index"],
+                               "code_magnetization_half = doc_magnetization_half":
+                                   None if None in (cfg["code_magnetization_half"], cfg["doc_magnetization_half"])
+                                   else cfg["code_magnetization_half"] == cfg["doc_magnetization_half"]},
+        "by_proof (PresetsAgreement + Properties_C04 type-check)": bool(ok),
+        "by_differential_runs": {"scenarios with a non-zero addMagnetization call": nmag,
+                                 "of which fail the documented-operator clause because of the magnetization variant": explained["magnetization"]["count"],
+                                 "scenarios on which the two first-factor tests give different polynomials": nrep,
+                                 "scenarios failing because of the first-factor test": explained["prepare"]["count"]}}
     chk.extra["process_counts"] = tools.stats
     chk.rule = ("cases are single calls (preset call or raw term) inside scenarios = site layout (1-3 sites, 1-3 orbitals, 1-3 spins, at most 6 modes, "
                 "label sets that change the hash order of the index map) + 1-6 calls + index ordering (order_spins 0/1). A directed corpus (%d "
@@ -1176,6 +1303,7 @@ def replay(chk, path):
     print("clauses judged: documented-operator%s%s" % (", hermitian" if s.hermitian_input() else "", ", su2-commutator" if s.su2_class() == "sym" else ""))
     print("library polynomial (HPOLY): %s" % [[str(x[0]), str(x[1]), list(x[2])] for x in (v.impl.hpoly or [])])
     print("HPOLY equals the polynomial of model variant: %s" % match_json(v))
+    print("configuration read from the tree (prepare_first_by_index, code_magnetization_half, doc_magnetization_half): %s" % generated_config())
     if v.fails:
         print("modelled defects that explain the failure: %s" % (v.explained_by() or "none"))
     for c in v.fails:
